@@ -79,6 +79,17 @@ Lemma gen_clear_size : clear_size = 0.                                Proof. ref
 Lemma gen_incsize_once : add_ncalls_incsize = 1 /\ replace_ncalls_incsize = 1 /\ v2t_ncalls_rotate = 2.
 Proof. repeat split; reflexivity. Qed.
 
+(* How often each function calls the ones the model calls in the same places (a dropped or doubled
+   call in the Go source breaks this fact even when no arithmetic changes). *)
+Lemma gen_call_counts :
+  new_ncalls_extract = 1 /\ new_ncalls_sort = 1 /\ new_ncalls_compact = 1 /\ clone_ncalls_clone = 1
+  /\ ins_ncalls_insert = 2 /\ ins_ncalls_rewrite = 1 /\ rem_ncalls_remove = 1 /\ rem_ncalls_rewrite = 1
+  /\ noderem_ncalls_pop = 1 /\ noderem_ncalls_left = 1 /\ noderem_ncalls_right = 1
+  /\ nodeclone_ncalls_left = 1 /\ nodeclone_ncalls_right = 1
+  /\ rewrite_ncalls_t2v = 1 /\ rewrite_ncalls_v2t = 1 /\ ext_ncalls_extract = 2
+  /\ after_ncalls_pathto = 1 /\ after_ncalls_inorder = 1 /\ inorder_ncalls_left = 1.
+Proof. repeat split; reflexivity. Qed.
+
 (* ------------------------------------------------------------------ trees *)
 Section Trees.
 Variable T : Type.
